@@ -190,6 +190,9 @@ pub struct XmlTreeBuilder<Handle, Sink> {
 
     /// Current tree builder phase.
     phase: Cell<XmlPhase>,
+
+    /// Has a doctype already been appended to the document?
+    doctype_appended: Cell<bool>,
 }
 impl<Handle, Sink> XmlTreeBuilder<Handle, Sink>
 where
@@ -210,6 +213,7 @@ where
             namespace_stack: RefCell::new(NamespaceMapStack::new()),
             current_namespace: RefCell::new(NamespaceMap::empty()),
             phase: Cell::new(XmlPhase::Start),
+            doctype_appended: Cell::new(false),
         }
     }
 
@@ -666,7 +670,13 @@ where
                     XmlProcessResult::Reprocess(XmlPhase::End, Token::Eof)
                 },
                 Token::Doctype(d) => {
-                    self.append_doctype_to_doc(d);
+                    // A document has at most one doctype.
+                    if self.doctype_appended.replace(true) {
+                        self.sink
+                            .parse_error(Borrowed("Unexpected second doctype in start phase"));
+                    } else {
+                        self.append_doctype_to_doc(d);
+                    }
                     XmlProcessResult::Done
                 },
                 _ => {
